@@ -43,7 +43,15 @@ def run(ctx):
     ctx.floor('IoError constructions', len(sites), 1)
     for b, st, t in sites:
         infrom = b.sig and b.sig.get('trait') == 'std::convert::From' and 'std::io::Error' in b.sig.get('trait_ref', '')
-        ok = bool(infrom) and is_param(dict(t[3])['0'], 1)
+        pay = dict(t[3])['0']
+        ok = bool(infrom) and is_param(pay, 1)
+        if not ok and not infrom:
+            # written out by hand (`Err(e) => Err(AsepriteParseError::IoError(e))`): the wrapped value is the failing call's own error,
+            # untouched - or a fresh error where there is no underlying one (read_vec's short read) - never one error rebuilt from another
+            bare = pay[0] == 'field' and pay[2] == '0' and pay[1][0] == 'variant' and pay[1][2] == 'Err' and pay[1][1][0] == 'call'
+            derived = any(isinstance(x, tuple) and x and ((x[0] == 'variant' and x[2] == 'Err') or
+                                                           (x[0] == 'param' and 'io::Error' in b.locals[x[1]]['ty'])) for x in walk(pay))
+            ok = bare or not derived
         ctx.inst('Y3', 'IoError@' + b.name.split('asefile::')[-1], ok, 'IoError(%s) constructed in %s; must be only From<io::Error>::from(err) '
                  'wrapping its argument' % (show(dict(t[3])['0']), b.name), st['span'], key=ctx.key(b.name, 'Y3', 'IoError-ctor', ''))
 
@@ -65,17 +73,24 @@ def run(ctx):
             if sw is not None:
                 tm_ = b.blocks[sw]['term']
                 err_e = [s_ for v_, s_ in tm_['targets'] if v_ == 1] or [tm_['otherwise']]
-                ds_ = [d for e_ in err_e for d in q.defs_in(b, b.cfg.reachable_from(e_)) if d[0] == 0 and not d[1]]
+                slots_ = q.return_slots(b)
+                ho_ = q._handoffs(b)
+                ds_ = [d for e_ in err_e for d in q.defs_in(b, b.cfg.reachable_from(e_)) if d[0] in slots_ and not d[1] and (d[3], d[0]) not in ho_]
 
                 def converted(t_):
+                    if t_[0] == 'residual':
+                        return True           # the `?` that hands an already built error value on
                     if not (t_[0] == 'agg' and t_[2] == 'Err'):
                         return False
                     p_ = dict(t_[3]).get('0')
-                    if not (p_ and p_[0] == 'call' and ('convert::From' in p_[1] or p_[1].endswith('Into::into')) and 'AsepriteParseError' in p_[1] + b.locals[0]['ty']):
+                    if p_ and p_[0] == 'agg' and p_[2] == 'IoError':
+                        a_ = dict(p_[3]).get('0', ('unknown',))          # the variant spelled out: IoError(e)
+                    elif p_ and p_[0] == 'call' and ('convert::From' in p_[1] or p_[1].endswith('Into::into')) and 'AsepriteParseError' in p_[1] + b.locals[0]['ty']:
+                        a_ = p_[2][0]
+                    else:
                         return False
-                    a_ = p_[2][0]
                     return a_[0] == 'field' and a_[1][0] == 'variant' and a_[1][2] == 'Err' and a_[1][1][0] == 'call' and a_[1][1][3] == (b.name, c.bb)
-                ok = bool(ds_) and all(converted(a_) for d in ds_ for a_ in alts(d[2]))
+                ok = bool(ds_) and all(converted(a_) for d in ds_ for a_ in alts(d[2])) and any(a_[0] == 'agg' for d in ds_ for a_ in alts(d[2]))
                 ctx.inst('Y3', '%s -> %s' % (b.name.split('asefile::')[-1], c.callee.split('::')[-1]), ok,
                          'io::Result of %s is matched by hand; its Err arm returns %s' % (c.callee, 'Err(From<io::Error>::from(e)) of that error' if ok else
                                                                                         'something other than the converted error'),
@@ -108,7 +123,7 @@ def run(ctx):
                      'io::Result of %s is converted by %s; must reach From<io::Error> (map_err(to_ase) / ? / into())' % (c.callee, how or 'NOTHING'),
                      c.span, key=ctx.key(b.name, 'Y3', 'io-result', c.callee))
     ctx.floor('io::Result call sites', nio, 8)
-    ta = ctx.anchor('asefile::reader::to_ase')
+    ta = fx.body('asefile::reader::to_ase')        # a convenience wrapper; gone when every site uses `?` / into() directly
     if ta is not None:
         t = res(ta).ret()
         ok = t[0] == 'call' and t[1].startswith('std::convert::From::from<error::AsepriteParseError<-std::io::Error') and is_param(t[2][0], 1)
